@@ -24,6 +24,8 @@ impl WTab {
         };
         let mut t = WTab { keys: keys.iter().map(|s| s.to_string()).collect(), vals: HashMap::new(), val_texts: HashMap::new(), next: 100 };
         for (i, v) in vals.iter().enumerate() { t.vals.insert(v.to_string(), i as i64 + 1); t.val_texts.insert(i as i64 + 1, v.to_string()); }
+        // distinguishing values of the big package list (ids 1001..)
+        for i in 1001..=1100i64 { let v = format!("u{}", i); t.vals.insert(v.clone(), i); t.val_texts.insert(i, v); }
         t
     }
     pub fn for_keys(mut keys: Vec<String>) -> WTab { keys.sort(); keys.dedup(); WTab { keys, vals: HashMap::new(), val_texts: HashMap::new(), next: 0 } }
@@ -97,9 +99,14 @@ pub fn split_formatter(_key: &str, value: &str) -> String {
     items.join(",\n")
 }
 
-pub struct Settings { pub wp: bool, pub ind: u32, pub fnl: bool, pub iel: bool, pub one: Option<usize>, pub sp: bool, pub sf: bool, pub fmt: String }
+pub struct Settings { pub pk: bool, pub wp: bool, pub ind: u32, pub fnl: bool, pub iel: bool, pub one: Option<usize>, pub sp: bool, pub sf: bool, pub fmt: String }
 
 /// sort key of a paragraph that depends only on its field names and values, not on their order or layout
+fn primary_key(p: &Paragraph) -> String {
+    let mut keyed: Vec<(String, String)> = p.items().collect();
+    keyed.sort();
+    keyed.last().map(|(_, v)| v.trim().to_string()).unwrap_or_default()
+}
 fn first_value(p: &Paragraph) -> String {
     let mut items: Vec<String> = p.items().map(|(k, v)| format!("{}={}", k, v.split('\n').map(|l| l.trim()).collect::<Vec<_>>().join("|"))).collect();
     items.sort();
@@ -116,7 +123,7 @@ pub fn apply(d: &Deb822, s: &Settings) -> Result<Deb822, String> {
     let sort_entries = |a: &Entry, b: &Entry| a.key().cmp(&b.key());
     let se: Option<&dyn Fn(&Entry, &Entry) -> std::cmp::Ordering> = if s.sf { Some(&sort_entries) } else { None };
     let wrap_para = |p: &Paragraph| p.wrap_and_sort(indentation, s.iel, s.one, se, fmt);
-    let sort_paras = |a: &Paragraph, b: &Paragraph| first_value(a).cmp(&first_value(b));
+    let sort_paras = |a: &Paragraph, b: &Paragraph| if s.pk { primary_key(a).cmp(&primary_key(b)) } else { first_value(a).cmp(&first_value(b)) };
     let spf: Option<&dyn Fn(&Paragraph, &Paragraph) -> std::cmp::Ordering> = if s.sp { Some(&sort_paras) } else { None };
     let wpf: Option<&dyn Fn(&Paragraph) -> Paragraph> = if s.wp { Some(&wrap_para) } else { None };
     guarded("Deb822::wrap_and_sort", || d.wrap_and_sort(spf, wpf))
@@ -132,7 +139,7 @@ pub fn observe(o: &mut Outcome, t: &mut WTab, text: &str, s: &Settings, feats: &
     let d = match guarded("Deb822::from_str", || Deb822::from_str(text)) { Ok(Ok(d)) => d, _ => { o.d("base_rejected", text, String::new()); return None; } };
     o.evals += 1;
     let (pre_lines, _) = project(t, text);
-    let prank = ranks(&d.paragraphs().map(|p| first_value(&p)).collect::<Vec<_>>());
+    let prank = ranks(&d.paragraphs().map(|p| if s.pk { primary_key(&p) } else { first_value(&p) }).collect::<Vec<_>>());
     // what the formatter is specified to produce, per field (split formatter only; identity / none: as is)
     let fmtv: Vec<Value> = d.paragraphs().map(|p| Value::Array(p.items().map(|(k, v)| {
         if s.fmt == "split" {
@@ -158,7 +165,7 @@ pub fn run(case: &Value, _seed: u64) -> Outcome {
     o.key = case.to_string();
     o.nontrivial = case["doc"]["lines"].as_array().map(|a| !a.is_empty()).unwrap_or(false);
     let st = &case["set"];
-    let s = Settings { wp: st["wp"].as_bool().unwrap_or(true), ind: st["ind"].as_u64().unwrap_or(1) as u32, fnl: st["fnl"].as_bool().unwrap_or(false), iel: st["iel"].as_bool().unwrap_or(false),
+    let s = Settings { pk: st["pk"].as_bool().unwrap_or(false), wp: st["wp"].as_bool().unwrap_or(true), ind: st["ind"].as_u64().unwrap_or(1) as u32, fnl: st["fnl"].as_bool().unwrap_or(false), iel: st["iel"].as_bool().unwrap_or(false),
         one: match st["one"].as_u64().unwrap_or(0) { 0 => None, n => Some(n as usize) }, sp: st["sp"].as_bool().unwrap_or(false), sf: st["sf"].as_bool().unwrap_or(false),
         fmt: st["fmt"].as_str().unwrap_or("none").to_string() };
     let mut feats = vec![format!("fmt:{}", s.fmt), format!("doc:{}", case["d"])];
@@ -167,6 +174,7 @@ pub fn run(case: &Value, _seed: u64) -> Outcome {
     if s.iel { feats.push("immediate_empty_line".into()); }
     if s.fnl { feats.push("field_name_length".into()); }
     if !s.wp { feats.push("no_paragraph_rebuilder".into()); }
+    if s.pk { feats.push("primary_key_comparator".into()); }
     let mut events = vec![];
     for map in 0..super::nmaps().min(3) {
         let mut t = WTab::for_map(map);
@@ -225,7 +233,7 @@ pub fn record(args: &[String]) {
         let text = bases[rng.gen_range(0..bases.len())].clone();
         let keys: Vec<String> = Deb822::from_str(&text).unwrap().paragraphs().flat_map(|p| p.keys().collect::<Vec<_>>()).collect();
         let mut t = WTab::for_keys(keys);
-        let s = Settings { wp: true, ind: [1, 2, 4, 8][rng.gen_range(0..4)], fnl: rng.gen_bool(0.25), iel: rng.gen_bool(0.5), one: [None, Some(20), Some(79)][rng.gen_range(0..3)],
+        let s = Settings { pk: rng.gen_bool(0.3), wp: true, ind: [1, 2, 4, 8][rng.gen_range(0..4)], fnl: rng.gen_bool(0.25), iel: rng.gen_bool(0.5), one: [None, Some(20), Some(79)][rng.gen_range(0..3)],
             sp: rng.gen_bool(0.5), sf: rng.gen_bool(0.5), fmt: ["none", "identity", "split"][rng.gen_range(0..3)].to_string() };
         let feats = vec![format!("fmt:{}", s.fmt), "doc:repository".to_string()];
         if let Some(ev) = observe(&mut o, &mut t, &text, &s, &feats) { distinct.insert(crate::conc::hash64(&ev["text"].to_string())); out.push_str(&ev.to_string()); out.push('\n'); events += 1; }
